@@ -27,10 +27,11 @@ const (
 	abortBudget
 	abortInconclusive
 	abortStop
+	abortSpec
 )
 
 func (k abortKind) String() string {
-	return [...]string{"infeasible", "unsupported", "unwind", "budget", "inconclusive", "stop"}[k]
+	return [...]string{"infeasible", "unsupported", "unwind", "budget", "inconclusive", "stop", "spec"}[k]
 }
 
 type abortPath struct {
@@ -273,6 +274,9 @@ func (in *interp) decide(t *Term) bool {
 	if p == nil {
 		panic(in.unsupported("symbolic branch outside a path (package initialisation?)"))
 	}
+	if in.speculating {
+		panic(abortPath{abortSpec, "decision during speculation"})
+	}
 	in.stats.Decisions++
 	if p.pos < len(p.item.prefix) {
 		d := p.item.prefix[p.pos]
@@ -322,6 +326,9 @@ func (in *interp) concretize(t *Term, why string) uint64 {
 	p := in.path
 	if p == nil {
 		panic(in.unsupported("symbolic value outside a path"))
+	}
+	if in.speculating {
+		panic(abortPath{abortSpec, "concretisation during speculation"})
 	}
 	in.stats.Decisions++
 	tt := in.tt
